@@ -68,6 +68,9 @@ Fixpoint set_head (b c : N) (h : heads) : heads :=
   | [] => [(b, c)]
   | (b', c') :: r => if b' =? b then (b, c) :: r else (b', c') :: set_head b c r
   end.
+(* deleting a branch: the dataset refs/heads/<b> is removed (doltdb.DeleteBranch; pushDataset -> Delete on the remote) *)
+Fixpoint remove_head (b : N) (h : heads) : heads :=
+  match h with [] => [] | (b', c') :: r => if b' =? b then remove_head b r else (b', c') :: remove_head b r end.
 Fixpoint get_head (b : N) (h : heads) : option N :=
   match h with [] => None | (b', c') :: r => if b' =? b then Some c' else get_head b r end.
 
@@ -82,6 +85,8 @@ Record repl := {
 Inductive rstep :=
 | RCommit (b c : N)               (* commit on the primary, push-on-write succeeds *)
 | RCommitPushFail (b c : N)       (* commit on the primary, the push fails: warning, commit stands *)
+| RDelete (b : N)                 (* the branch is deleted on the primary; push-on-write deletes the remote's ref (commit_hooks.go pushDataset: no head -> Delete) *)
+| RTag (t : N)                    (* a tag named like branch t is created on the primary and pushed: refs/tags/.. is not a branch head, no head changes *)
 | RPull                           (* the read replica starts a transaction: fetch + set heads *)
 | RPullFail.                      (* fetch fails: heads unchanged *)
 
@@ -96,7 +101,11 @@ Definition repl_step (s : repl) (e : rstep) : repl :=
   | RCommitPushFail b c =>
     {| r_primary := set_head b c (r_primary s); r_remote := r_remote s;
        r_remote_hist := r_remote_hist s; r_replica := r_replica s; r_warned := true |}
-  | RPull =>
+  | RDelete b =>
+    {| r_primary := remove_head b (r_primary s); r_remote := remove_head b (r_remote s);
+       r_remote_hist := r_remote_hist s; r_replica := r_replica s; r_warned := false |}
+  | RTag _ => s
+  | RPull =>     (* read_replica_database.go PullFromRemote, all heads: pullBranches, then deleteBranches (refsToDelete remote local): replica = remote *)
     {| r_primary := r_primary s; r_remote := r_remote s; r_remote_hist := r_remote_hist s;
        r_replica := r_remote s; r_warned := r_warned s |}
   | RPullFail => s
